@@ -166,6 +166,8 @@ where
     program: Program,
     row: LineRow,
     instructions: LineInstructions<R>,
+    /// True if a row has been returned for the current sequence.
+    in_sequence: bool,
 }
 
 type OneShotLineRows<R, Offset = <R as Reader>::Offset> =
@@ -189,6 +191,7 @@ where
             program,
             row,
             instructions,
+            in_sequence: false,
         }
     }
 
@@ -202,6 +205,7 @@ where
             program,
             row,
             instructions,
+            in_sequence: false,
         }
     }
 
@@ -233,12 +237,16 @@ where
                 Ok(None) => return Ok(None),
                 Ok(Some(instruction)) => {
                     if self.row.execute(instruction, &mut self.program)? {
-                        if self.row.tombstone {
+                        // Tombstone rows are skipped, except for the end of a sequence
+                        // for which rows have already been returned: skipping that
+                        // would merge the sequence with the one that follows it.
+                        if self.row.tombstone && !(self.row.end_sequence && self.in_sequence) {
                             // Perform any reset that was required for the tombstone row.
                             // Normally this is done when `next_row` is called again, but for
                             // tombstones we loop immediately.
                             self.row.reset(self.program.header());
                         } else {
+                            self.in_sequence = !self.row.end_sequence;
                             return Ok(Some((self.header(), &self.row)));
                         }
                     }
